@@ -5,7 +5,7 @@ from tools.vlib import *
 HEADER = """From Coq Require Import ZArith NArith List Bool Floats String.
 From CE Require Import Num NumFloat NumFloat64 Peak PeakCheck ConvCheck.
 Import ListNotations. Open Scope float_scope. Open Scope string_scope."""
-THEOREMS = []
+THEOREMS = ["C11_threshold_zero", "C11_multiset", "C11_survivors", "C11_no_junk", "C11_tail"]
 
 
 def peaks_term(o):
